@@ -153,6 +153,15 @@ theorem C03_compileTop_sound_partial (cls : LeafCls) (guard : Bool) (scoring : B
     simp only [compileTop, sem]
     rw [mem_complex_eq_boolSem scoring docs.length d hd, ih]
 
+/-- a scorer tree is iterated in strictly increasing doc-id order, without duplicates, below
+`max_doc` (the DocSet contract the collectors rely on; the iteration mechanics are C13's) -/
+theorem C03_interp_sorted (n : Nat) (t : STree) :
+    (interp n t).Pairwise (· < ·) ∧ ∀ d ∈ interp n t, d < n := by
+  unfold interp
+  refine ⟨List.Pairwise.filter _ List.pairwise_lt_range, ?_⟩
+  intro d hd
+  exact List.mem_range.mp (List.mem_filter.mp hd).1
+
 /-! ## F4: the single-clause shortcut and `minimum_number_should_match`
 
 `guard` says whether the `weights.len() == 1` branch of `BooleanWeight::scorer` honours the
@@ -269,6 +278,40 @@ theorem C03_count_shortcut_sound (cls : LeafCls) (guard : Bool) (s : Seg) (q : Q
     simp [aliveAt, List.getD_eq_getElem?_getD, List.getElem?_eq_getElem hd] at this ⊢
     exact this
   exact ⟨by unfold weightCount; simp [hnodel, key], key⟩
+
+/-- `docsWhere` keeps as many doc ids as there are documents satisfying the predicate -/
+theorem length_docsWhere (docs : List ADoc) (p : ADoc → Bool) :
+    (docsWhere docs p).length = (docs.filter p).length := by
+  unfold docsWhere
+  rw [List.length_map, ← List.countP_eq_length_filter, ← List.countP_eq_length_filter]
+  have h : docs.countP p = (docs.zipIdx.map Prod.fst).countP p := by rw [List.zipIdx_map_fst]
+  rw [h, List.countP_map]
+  rfl
+
+/-- `TermWeight::count`: on a segment without deleted documents the `doc_freq` shortcut is the
+number of documents the term query collects (what `Count` / `Query::count` report for a term) -/
+theorem C03_term_count_shortcut (guard : Bool) (s : Seg) (hw : DocsWf s.docs)
+    (hlen : s.alive.length = s.docs.length) (hnodel : s.alive.all id = true) (f : Nat) (t : Bytes) :
+    termCountShortcut s f t = collectCount leafTree guard false s (.leaf (.term f t))
+      ∧ termCountShortcut s f t = (s.docs.filter (fun d => hasTerm d f t)).length := by
+  have hcs := C03_count_shortcut_sound leafTree guard s (.leaf (.term f t)) hlen hnodel
+  have hsound := C03_compile_sound_partial leafTree guard false false s.docs
+    (leafTree_soundOn s.docs hw) (.leaf (.term f t)) (by simp [okQ, leafOk])
+  have hl := congrArg List.length hsound
+  rw [List.length_map] at hl
+  have hsome : ((interp s.docs.length (compile leafTree guard false s.docs false (.leaf (.term f t)))).filterMap
+      (fun d => s.docs[d]?.map (·.id))).length
+      = (interp s.docs.length (compile leafTree guard false s.docs false (.leaf (.term f t)))).length := by
+    apply length_filterMap_of_isSome
+    intro d hd
+    have hdn := (C03_interp_sorted s.docs.length _).2 d hd
+    simp [List.getElem?_eq_getElem hdn]
+  have hfreq : termCountShortcut s f t = (s.docs.filter (fun d => hasTerm d f t)).length := by
+    unfold termCountShortcut; exact length_docsWhere s.docs _
+  have hsem : (s.docs.filter (sem (.leaf (.term f t)))).length = (s.docs.filter (fun d => hasTerm d f t)).length := by
+    congr 1
+  refine ⟨?_, hfreq⟩
+  rw [hfreq, ← hcs.2, ← hsome, hl, hsem]
 
 /-! ## whole searcher = specification; independence of segmentation and of other deletes -/
 
@@ -695,6 +738,12 @@ example : (JsonRange.B.excl (.f (-3))).small ∧ (JsonRange.B.incl (.i 7)).small
     decide
   · show -(2 ^ 53) < (2 * 7 : Int) ∧ (2 * 7 : Int) < 2 ^ 53
     decide
+example :
+    let d1 : ADoc := ⟨1, [⟨1, [97], [0]⟩], []⟩
+    let s : Seg := ⟨[d1, d1, ⟨3, [], []⟩], [true, true, true]⟩
+    s.alive.all id = true ∧ termCountShortcut s 1 [97] = 2
+      ∧ (interp 3 (compile leafTree true false s.docs false (.leaf (.term 1 [97])))) = [0, 1] := by
+  decide
 example : (([⟨1, [], []⟩, ⟨2, [], []⟩] : List ADoc)).Perm [⟨2, [], []⟩, ⟨1, [], []⟩] :=
   List.Perm.swap _ _ _
 
